@@ -18,6 +18,7 @@ class PathSym:
         self.decisions = []
         self.ret = None
         self.returns = False
+        self.infeasible = False
         self._run()
 
     # ---- reading ---------------------------------------------------------------------------------
@@ -35,6 +36,9 @@ class PathSym:
             break
         if x[0] == 'arg' and x[1] == self.self_local:
             return tuple(reversed(path))
+        if x[0] == 'sfp':
+            # a pointer to (a part of) self held in a local: the `self` parameter of an inlined private helper
+            return tuple(x[1]) + tuple(reversed(path))
         return None
 
     def place(self, p, reading=True):
@@ -52,6 +56,8 @@ class PathSym:
                     base = base[1]
                 else:
                     base = ('deref', base)
+            elif k == 'field' and base[0] == 'sfp':
+                base = ('sfp', tuple(base[1]) + (e['name'],))
             elif k == 'field':
                 if base[0] == 'agg' and base[1] == 'tuple' and e['i'] < len(base[3]):
                     base = base[3][e['i']]
@@ -184,7 +190,17 @@ class PathSym:
             elif t['t'] == 'switch' and i + 1 < len(self.path):
                 nxt = self.path[i + 1]
                 vals = [v for v, tgt in t['targets'] if tgt == nxt]
-                self.decisions.append((self.operand(t['discr']), vals if vals else 'otherwise'))
+                dtree = self.operand(t['discr'])
+                self.decisions.append((dtree, vals if vals else 'otherwise'))
+                # a branch on a value this very path fixed to a constant (e.g. the `true` / `false` an inlined helper returned)
+                x = dtree
+                while isinstance(x, tuple) and x and x[0] in ('ref', 'deref'):
+                    x = x[1]
+                if isinstance(x, tuple) and x and x[0] == 'const' and isinstance(x[2], (bool, int)):
+                    c = int(x[2])
+                    allv = [v for v, _ in t['targets']]
+                    if (vals and c not in vals) or (not vals and c in allv):
+                        self.infeasible = True
             elif t['t'] == 'return':
                 self.returns = True
         self.ret = self.val.get(0)
